@@ -391,13 +391,18 @@ func (s *Syncer) handleRPC(id types.Specifier, stream *gateway.Stream, origin *P
 		bid := r.Block.ID(cs)
 		if _, ok := s.cm.State(bid); ok {
 			return nil // already seen
-		} else if bid.CmpWork(cs.PoWTarget()) < 0 {
-			return s.ban(origin, errors.New("peer sent v2 outline with insufficient work"))
 		} else if r.Block.ParentID != s.cm.Tip().ID {
 			// block extends a sidechain, which peer (if honest) believes to be the
 			// heaviest chain
+			//
+			// NOTE: this must be checked before the work: an outline's ID is
+			// derived from the parent *state*, and for a sidechain parent that was
+			// never applied we only hold a header-only state, so bid is not the
+			// block's real ID and says nothing about the peer's work.
 			s.resync(origin, "peer relayed a v2 outline that does not attach to our tip")
 			return nil
+		} else if bid.CmpWork(cs.PoWTarget()) < 0 {
+			return s.ban(origin, errors.New("peer sent v2 outline with insufficient work"))
 		}
 		log.Debug("received v2 block outline", zap.Stringer("blockID", bid), zap.Stringer("origin", origin))
 		// block has sufficient work and attaches to our tip, but may be missing
